@@ -188,7 +188,33 @@ fn ser_nested_regions(inner_fails: bool) {
     crate::reach_end!();
 }
 
+/// C04 (serialising side): endpoints and regions interleaved in one value — every embedded object is
+/// numbered within ITS OWN kind, in value order, and the descriptors go out channels first, in that order
+fn ser_mixed() {
+    start();
+    let (tx, rx) = ipc::channel::<(IpcSender<u8>, IpcSharedMemory, IpcSender<u8>, IpcSharedMemory)>().unwrap();
+    let (a_tx, a_rx) = ipc::channel::<u8>().unwrap();
+    let (b_tx, b_rx) = ipc::channel::<u8>().unwrap();
+    let ra = IpcSharedMemory::from_bytes(&[1u8]);
+    let rb = IpcSharedMemory::from_bytes(&[2u8, 2]);
+    env::set_enobufs_mask(0);
+    tx.send((a_tx.clone(), ra.clone(), b_tx.clone(), rb.clone())).unwrap();
+    assert!(env::att_count() == 1, "number of transmissions");
+    let o = env::att(0);
+    let pay = env::att_pay(0);
+    assert!(o.ok && o.nfds == 4, "C04: the message does not carry exactly its two channels and two regions");
+    assert!(o.fds[0] == fd_of(&a_tx) && o.fds[1] == fd_of(&b_tx), "C04: channels not first / not in value order");
+    assert!(o.len == 32, "payload = four indices");
+    assert!(le64(&pay, 0) == 0 && le64(&pay, 16) == 1, "C04: channel indices do not count channels in value order");
+    assert!(le64(&pay, 8) == 0 && le64(&pay, 24) == 1, "C04/C05: region indices do not count regions in value order");
+    assert!(ipc::verif_hooks::serialization_tables_len() == (0, 0), "C14: side tables not empty after the send");
+    drop((tx, rx, a_tx, a_rx, b_tx, b_rx, ra, rb));
+    assert!(env::nopen() == 0 && env::nmapped() == 0 && !env::bad_close(), "C11: descriptors or mappings left after everything was dropped");
+    crate::reach_end!();
+}
+
 harnesses! {
+    #[unwind(8)] fn ser_mixed_indices() { ser_mixed() }
     #[unwind(8)] fn ser_nested_regions_ok() { ser_nested_regions(false) }
     #[unwind(8)] fn ser_nested_regions_inner_fails() { ser_nested_regions(true) }
     #[unwind(8)] fn ser_fail_visit0() { ser_fail(0) }
